@@ -24,8 +24,11 @@ TREE = [
     {"p": "r/b/one again", "k": "file", "c": ["base", 2000, 1]},
     {"p": "r/x", "k": "file", "c": ["base", 70000, 2]}, {"p": "r/a/x", "k": "file", "c": ["base", 70000, 2]},
     {"p": "r/unique", "k": "file", "c": ["lit", "unique"]},
+    # names that are not valid UTF-8 and differ only in the invalid byte
+    {"p": "r/n/caf\udce9", "k": "file", "c": ["base", 300, 3]}, {"p": "r/n/caf\udce8", "k": "file", "c": ["base", 300, 3]},
+    {"p": "r/m/caf\udce9", "k": "file", "c": ["base", 300, 3]},
 ]
-PLACEMENTS = ["outside", "inside", "other_device", "relative", "trailing_slash"]
+PLACEMENTS = ["outside", "inside", "other_device", "relative", "trailing_slash", "other_mount"]
 PREPOP = ["empty", "file", "dir", "dangling_symlink", "symlink_to_file"]
 
 
@@ -38,7 +41,7 @@ def cases(tier, seed):
     for pl in PLACEMENTS:
         for pp in PREPOP:
             out.append({"placement": pl, "prepop": pp, "sweep": False, "tier": tier})
-    for pl in ("outside", "other_device"):
+    for pl in ("outside", "other_device", "other_mount"):
         for pp in ("empty", "file", "dangling_symlink"):
             out.append({"placement": pl, "prepop": pp, "sweep": True, "tier": tier})
     return out
@@ -54,12 +57,33 @@ def target_dir(sc, placement):
         return d, d
     if placement == "relative":
         return "../moved rel", os.path.join(sc.root, "moved rel")
+    if placement == "other_mount":
+        # a mount point fclones' own mount table knows: no rename attempt, straight copy + delete
+        d = os.path.join(C.EXT4, "fcv.%d.c18loop" % os.getpid(), "moved")
+        return d, d
     if placement == "trailing_slash":
         return os.path.join(sc.root, "moved") + "/", os.path.join(sc.root, "moved")
     raise ValueError(placement)
 
 
 def evaluate(case):
+    viol = []
+    reached = []
+    evals = 0
+    loop = None
+    if case["placement"] == "other_mount":
+        if not C.can_loop_mount():
+            return {"violations": [], "nontrivial": None, "outcome": "skipped_no_loop_mount", "evaluations": 1}
+        loop = C.LoopMount(os.path.join(C.EXT4, "fcv.%d.c18loop" % os.getpid()))
+        loop.__enter__()
+    try:
+        return _evaluate(case)
+    finally:
+        if loop:
+            loop.__exit__()
+
+
+def _evaluate(case):
     viol = []
     reached = []
     evals = 0
